@@ -3,45 +3,50 @@
 From Coq Require Import List Arith NArith Bool Lia Permutation.
 From NngV Require Import Proto.Common Proto.PushModel Proto.PullModel Proto.PushProofs
   Ledger.Ledger Ledger.LedgerProofs Ledger.LawTac Ledger.Views Ledger.OwnPipeline Ledger.LedgerThms Ledger.OwnPairBus.
+From NngV Require Proto.PushGuard Proto.PushSubmit.
 Import ListNotations.
 
 (* ------------------------------ PUSH ------------------------------ *)
 Definition push_close_script (s : push) : list pop :=
   map PPipeClose (ps_pl s) ++ map (fun p => PSendDone p E_CLOSED) (map fst (ps_sending s)) ++ [PSockClose].
 
-Lemma push_inv_step s o : PInv s -> push_ok s o -> PInv (fst (push_step s o)).
+Lemma push_inv_step_r fr s o : PInv s -> push_ok s o -> PInv (fst (push_step_r fr s o)).
 Proof.
-  intros Hi [Ho _]. destruct (push_step s o) as [s' outs] eqn:E. exact (proj1 (push_step_law s o s' outs Hi Ho E)).
+  intros Hi [Ho _]. destruct (push_step_r fr s o) as [s' outs] eqn:E. exact (proj1 (PushSubmit.push_step_r_law fr s o s' outs Hi Ho E)).
 Qed.
 
-Theorem push_close_drains : forall s, PInv s ->
-  ops_ok push_step push_ok s (push_close_script s) /\ drained view_push (run push_step s (push_close_script s)).
+Theorem push_close_drains_r fr : forall s, PInv s ->
+  ops_ok (push_step_r fr) push_ok s (push_close_script s) /\ drained view_push (run (push_step_r fr) s (push_close_script s)).
 Proof.
   intros s Hi. unfold push_close_script.
   (* the pipe closes touch neither the buffer, the waiters nor the sends in flight *)
-  destruct (run_frame push_step PInv push_ok push_inv_step (fun s => (ps_sending s, ps_wq s, ps_aq s)) (map PPipeClose (ps_pl s))) with (s := s) as (A1 & I1 & F1); [|exact Hi|].
+  destruct (run_frame (push_step_r fr) PInv push_ok (push_inv_step_r fr) (fun s => (ps_sending s, ps_wq s, ps_aq s)) (map PPipeClose (ps_pl s))) with (s := s) as (A1 & I1 & F1); [|exact Hi|].
   { intros s0 o Hin Hi0. apply in_map_iff in Hin. destruct Hin as [p [<- _]]. split; [split; exact I|].
-    cbn [push_step]. destruct (has_id p (ps_pl s0)); reflexivity. }
-  set (s1 := run push_step s (map PPipeClose (ps_pl s))) in *.
+    cbn [push_step_r push_step]. destruct (has_id p (ps_pl s0)); reflexivity. }
+  set (s1 := run (push_step_r fr) s (map PPipeClose (ps_pl s))) in *.
   inversion F1 as [[Fs Fw Fa]]. clear F1.
   (* every send in flight fails *)
-  destruct (run_fail_all push_step PInv push_ok push_inv_step (fun s => (ps_wq s, ps_aq s)) ps_sending E_CLOSED) with (s := s1) as (A2 & I2 & F2 & S2).
+  destruct (run_fail_all (push_step_r fr) PInv push_ok (push_inv_step_r fr) (fun s => (ps_wq s, ps_aq s)) ps_sending E_CLOSED) with (s := s1) as (A2 & I2 & F2 & S2).
   { intros s0 p _ Hin. split; [exact Hin|exact I]. }
   { intros s0 p. reflexivity. }
   { intros s0 p. reflexivity. }
   { destruct I1 as (_ & _ & Hn & _). exact Hn. }
   { exact I1. }
-  set (s2 := run push_step s1 (map (fun p => PSendDone p E_CLOSED) (map fst (ps_sending s1)))) in *.
+  set (s2 := run (push_step_r fr) s1 (map (fun p => PSendDone p E_CLOSED) (map fst (ps_sending s1)))) in *.
   inversion F2 as [[Fw2 Fa2]]. clear F2.
   unfold s2 in *. clear s2. rewrite Fs in *.
-  set (s2 := run push_step s1 (map (fun p => PSendDone p E_CLOSED) (map fst (ps_sending s)))) in *.
+  set (s2 := run (push_step_r fr) s1 (map (fun p => PSendDone p E_CLOSED) (map fst (ps_sending s)))) in *.
   split.
-  - apply (ops_ok_app push_step push_ok); [exact A1|]. fold s1.
-    apply (ops_ok_app push_step push_ok); [exact A2|]. fold s2. cbn [ops_ok]. split; [split; exact I|exact I].
-  - rewrite !(run_app push_step). fold s1. fold s2. cbn [run push_step fst].
+  - apply (ops_ok_app (push_step_r fr) push_ok); [exact A1|]. fold s1.
+    apply (ops_ok_app (push_step_r fr) push_ok); [exact A2|]. fold s2. cbn [ops_ok]. split; [split; exact I|exact I].
+  - rewrite !(run_app (push_step_r fr)). fold s1. fold s2. cbn [run push_step_r push_step fst].
     unfold drained. cbn [view_push VPush.view v_tx v_att v_held v_fini ps_sending ps_aq ps_wq].
     split; [exact S2|]. split; [reflexivity|apply Permutation_refl].
 Qed.
+
+(* the pinned text of push0_set_send_buf_len (push_step = push_step_r false on every operation) *)
+Lemma push_inv_step s o : PInv s -> push_ok s o -> PInv (fst (push_step s o)).
+Proof. rewrite <- PushGuard.push_step_r_false. apply push_inv_step_r. Qed.
 
 (* ------------------------------ PULL ------------------------------ *)
 Definition pull_close_script (s : pull) : list pop := map PPipeClose (map fst (pl_pl s)) ++ [PSockClose].
@@ -67,5 +72,5 @@ Proof.
     rewrite (pull_close_pipes (map fst (pl_pl s)) s (incl_refl _)). split; [reflexivity|]. split; [reflexivity|apply Permutation_refl].
 Qed.
 
-Print Assumptions push_close_drains.
+Print Assumptions push_close_drains_r.
 Print Assumptions pull_close_drains.
